@@ -246,7 +246,7 @@ def dottedFeatures (c : Cfg) (key : Str) (m : Obj) : List String :=
   if !key.contains '.' then []
   else if c.opaqueKeys then
     ["key-dotted-opaque", if hasKey key m then "key-dotted-opaque-literal-found" else
-      (match dottedLookup false (fieldsDot key) m with
+      (match dottedLookup false [] (fieldsDot key) m with
        | .ok (some _) => "key-dotted-opaque-absent-but-nested-path-exists"
        | _ => "key-dotted-opaque-absent")]
   else
